@@ -23,6 +23,19 @@ class ParamCallable:
         return X @ c + self.b
 
 
+class Regressor:
+    """A fitted-regressor-like object: the assignment handed to ANM is its bound method `predict`."""
+
+    def __init__(self, coefs, b):
+        self.coefs = np.array(coefs, dtype=float)
+        self.b = float(b)
+
+    def predict(self, X):
+        k = X.shape[1]
+        c = np.resize(self.coefs, k) if k else np.zeros(0)
+        return X @ c + self.b
+
+
 class ParamNoise:
     """Noise distribution instance with mutable parameters, drawing from numpy's global
     generator like the library's own factories do."""
@@ -106,6 +119,8 @@ def make_fn(spec, sempler_noise):
         return _tanh
     if name == "param":
         return ParamCallable(spec[1], spec[2])
+    if name == "bound":
+        return Regressor(spec[1], spec[2]).predict
     if name == "paramnoise":
         return ParamNoise(spec[1], spec[2])
     if name == "replay":
